@@ -152,6 +152,14 @@ func c15Corpus(thorough bool) []*c15Entry {
 	polyCompressed("polygon-compressed-crossface", s2.PolygonFromLoops([]*s2.Loop{snapLoop(ll(44, 44), 6, 7, 9, 0)}))
 	polyCompressed("polygon-compressed-level30", s2.PolygonFromLoops([]*s2.Loop{snapLoop(p, 1e-6, 4, 30, 0)}))
 	polyCompressed("polygon-compressed-64-bound", s2.PolygonFromLoops([]*s2.Loop{snapLoop(p, 3, 64, 16, 0)}))
+	var isl, islSnapped []*s2.Loop
+	for i := 0; i < 13; i++ {
+		ctr := ll(-60+9*float64(i), -150+23*float64(i))
+		isl = append(isl, s2.RegularLoop(ctr, s1.Degree*2, 4))
+		islSnapped = append(islSnapped, snapLoop(ctr, 2, 4, 12, 0))
+	}
+	polyLossless("polygon-lossless-13-loops", s2.PolygonFromLoops(isl))
+	polyCompressed("polygon-compressed-13-loops", s2.PolygonFromLoops(islSnapped))
 	if thorough {
 		polyCompressed("polygon-compressed-level1", s2.PolygonFromLoops([]*s2.Loop{snapLoop(ll(10, 10), 50, 4, 1, 0)}))
 		polyLossless("polygon-lossless-40", s2.PolygonFromLoops([]*s2.Loop{s2.RegularLoop(p, s1.Degree*3, 40)}))
@@ -550,6 +558,7 @@ type c15Out struct {
 	AccByDec map[string]int64 `json:"accepted_by_decoder"`
 	Over     int64            `json:"over_limit_mutants"`
 	Skipped  int64            `json:"skipped_permitted_giant_allocations"`
+	Reuse    int64            `json:"decode_into_used_value_pairs"`
 	Viol     []*c15Viol       `json:"violations"`
 	Samples  []string         `json:"samples"`
 }
@@ -678,6 +687,108 @@ func c15Giant(dec string, d []byte) bool {
 	return false
 }
 
+type c15Codec interface {
+	Decode(io.Reader) error
+	Encode(io.Writer) error
+}
+
+var c15Factories = map[string]func() c15Codec{
+	"Point":     func() c15Codec { return new(s2.Point) },
+	"Cap":       func() c15Codec { return new(s2.Cap) },
+	"Rect":      func() c15Codec { return new(s2.Rect) },
+	"CellID":    func() c15Codec { return new(s2.CellID) },
+	"Cell":      func() c15Codec { return new(s2.Cell) },
+	"CellUnion": func() c15Codec { return new(s2.CellUnion) },
+	"Polyline":  func() c15Codec { return new(s2.Polyline) },
+	"Loop":      func() c15Codec { return new(s2.Loop) },
+	"Polygon":   func() c15Codec { return new(s2.Polygon) },
+}
+
+// c15Digest describes a decoded value through its public accessors.
+func c15Digest(v c15Codec) string {
+	var b bytes.Buffer
+	err := v.Encode(&b)
+	d := fmt.Sprintf("enc=%x err=%v", b.Bytes(), err)
+	if sh, ok := v.(s2.Shape); ok {
+		n := sh.NumEdges()
+		d += fmt.Sprintf("|edges=%d chains=%d", n, sh.NumChains())
+		if n <= 4000 {
+			for e := 0; e < n; e++ {
+				d += fmt.Sprintf("|%v%v", sh.Edge(e), sh.ChainPosition(e))
+			}
+			for i := 0; i < sh.NumChains(); i++ {
+				d += fmt.Sprintf("|c%v", sh.Chain(i))
+			}
+		}
+	}
+	switch t := v.(type) {
+	case *s2.Polygon:
+		d += fmt.Sprintf("|loops=%d %v %v %v", t.NumLoops(), t.ContainsPoint(ll(1, 2)), t.ContainsPoint(ll(12, 34)), t.RectBound())
+		for _, l := range t.Loops() {
+			d += fmt.Sprintf("|%v%v", l.IsHole(), l.ContainsOrigin())
+		}
+	case *s2.Loop:
+		d += fmt.Sprintf("|%v %v %v", t.ContainsPoint(ll(1, 2)), t.ContainsPoint(ll(12, 34)), t.RectBound())
+	}
+	return d
+}
+
+// c15DecodeIntoUsedValues: "for every byte string each Decode ... returns a usable value" must not
+// depend on what the destination held before.  For every ordered pair (X, Y) of corpus entries of one
+// type, Y is decoded into a value that has already decoded X; the result must be indistinguishable
+// from decoding Y into a fresh value.
+func c15DecodeIntoUsedValues(thorough bool, out *c15Out, viol map[string]*c15Viol) {
+	corpus := c15Corpus(thorough)
+	for kind, mk := range c15Factories {
+		var es []*c15Entry
+		for _, e := range corpus {
+			if e.Kind == kind {
+				es = append(es, e)
+			}
+		}
+		for _, x := range es {
+			for _, y := range es {
+				out.Reuse++
+				func() {
+					defer func() {
+						if r := recover(); r != nil {
+							key := "panic|" + kind + "|reuse"
+							if v, ok := viol[key]; ok {
+								v.Count++
+								return
+							}
+							viol[key] = &c15Viol{Kind: "panic", Desc: fmt.Sprintf("%s decoded into a value that already held another decoded %s panics when decoded or queried: %v at %s", kind, kind, r, core.GeoFrame(string(debug.Stack()))), Entry: x.Name + " then " + y.Name, Decoder: kind, Mutant: "decode " + x.Name + " then " + y.Name + " into the same value", Hex: fmt.Sprintf("%x", y.Data), Count: 1}
+						}
+					}()
+					fresh := mk()
+					if fresh.Decode(bytes.NewReader(y.Data)) != nil {
+						return
+					}
+					want := c15Digest(fresh)
+					used := mk()
+					if used.Decode(bytes.NewReader(x.Data)) != nil {
+						return
+					}
+					_ = c15Digest(used) // use it (builds indexes etc.)
+					if err := used.Decode(bytes.NewReader(y.Data)); err != nil {
+						key := "wrong-answer|" + kind + "|reuse-err"
+						viol[key] = &c15Viol{Kind: "wrong-answer", Desc: kind + ".Decode of a valid encoding fails when the destination already held a decoded value", Entry: x.Name + " then " + y.Name, Decoder: kind, Hex: fmt.Sprintf("%x", y.Data), Count: 1}
+						return
+					}
+					if got := c15Digest(used); got != want {
+						key := "wrong-answer|" + kind + "|reuse-diff"
+						if v, ok := viol[key]; ok {
+							v.Count++
+							return
+						}
+						viol[key] = &c15Viol{Kind: "wrong-answer", Desc: kind + " decoded into a value that already held another decoded " + kind + " differs from the same bytes decoded into a fresh value", Entry: x.Name + " then " + y.Name, Decoder: kind, Mutant: "decode " + x.Name + " then " + y.Name + " into the same value", Hex: fmt.Sprintf("%x", y.Data), Count: 1}
+					}
+				}()
+			}
+		}
+	}
+}
+
 // c15Worker: vcheck worker c15 <tier> <mode> <shard> <shards> [<entry> <index>]
 // mode: light | heavy | one
 func c15Worker(args []string) int {
@@ -728,6 +839,9 @@ func c15Worker(args []string) int {
 				out.Samples = append(out.Samples, fmt.Sprintf("%s: %s", e.Name, m.Desc))
 			}
 		})
+	}
+	if mode == "light" && shard == 0 {
+		c15DecodeIntoUsedValues(thorough, out, viol)
 	}
 	for _, v := range viol {
 		out.Viol = append(out.Viol, v)
@@ -819,6 +933,8 @@ func runC15(c *core.Ctx) {
 		total.Rejected += o.Rejected
 		total.Over += o.Over
 		total.Skipped += o.Skipped
+		total.Reuse += o.Reuse
+		total.Reuse += o.Reuse
 		for k, v := range o.ByClass {
 			total.ByClass[k] += v
 		}
@@ -841,6 +957,7 @@ func runC15(c *core.Ctx) {
 	c.Note("accepted_by_decoder", total.AccByDec)
 	c.Note("over_limit_mutants_checked_for_rejection_without_allocation", total.Over)
 	c.Note("mutants_not_run_because_they_declare_a_within_limit_giant_count", total.Skipped)
+	c.Note("decode_into_used_value_pairs", total.Reuse)
 	c.Note("corpus_entries", len(c15Corpus(thorough)))
 }
 
